@@ -26,7 +26,7 @@ CASE_TIMEOUT = 180
 
 PAIRINGS = [
     ("fixed_frame", "rigid_body"), ("moving_frame", "rigid_body"), ("rotating_frame", "rigid_body"),
-    ("rigid_body", "rigid_body"), ("rigid_body", "fixed_frame"), ("rigid_body", "rotating_frame"),
+    ("rigid_body", "rigid_body"), ("rigid_body", "fixed_frame"), ("rigid_body", "rotating_frame"), ("turntable", "rigid_body"), ("rigid_body", "turntable"),
     ("rigid_body", "point_mass"), ("point_mass", "rigid_body"), ("point_mass", "point_mass"),
     ("moving_frame", "point_mass"), ("point_mass", "rotating_frame"),
     ("rod", "rigid_body"), ("rigid_body", "rod"), ("fixed_frame", "rod"), ("rod", "rod"), ("rod", "point_mass"),
